@@ -154,7 +154,7 @@ func c02(tier string) int {
 	}
 	var mu sync.Mutex
 	var evals int64
-	judge := func(e *wh.Env, cfgName string, c c02Case, seeded bool) {
+	judge := func(e *wh.Env, cfgName string, c c02Case, seeded bool, seedAt int) {
 		before := e.Snap()
 		out := e.Do(wh.Req{LogID: c.ID, Old: c.Old, CP: c.CP, Proof: c.Proof})
 		after := e.Snap()
@@ -164,9 +164,15 @@ func c02(tier string) int {
 		lc, known := e.LogByID[c.ID]
 		changed := !after.Equal(before)
 		accepted := out.Err == nil || changed
-		rep := map[string]any{"kind": "witness-path", "store": e.Cfg.Store, "config": cfgName, "seeded": seeded,
+		rep := map[string]any{"kind": "witness-path", "store": e.Cfg.Store, "config": cfgName, "seeded": seeded, "seed_size": seedAt,
 			"request": map[string]any{"log_id": c.ID, "old": fmt.Sprint(c.Old), "cp_b64": base64.StdEncoding.EncodeToString(c.CP), "label": c.Label}}
-		sig := func(k string) string { return fmt.Sprintf("%s config=%s edit=%s", k, cfgName, editClass(c.Label)) }
+		sig := func(k string) string {
+			st := ""
+			if seeded && seedAt != 2 {
+				st = fmt.Sprintf(" stored-size=%d", seedAt)
+			}
+			return fmt.Sprintf("%s config=%s edit=%s%s", k, cfgName, editClass(c.Label), st)
+		}
 		cls := "refused"
 		if accepted {
 			cls = "accepted"
@@ -222,27 +228,36 @@ func c02(tier string) int {
 		cfgName string
 		store   string
 		seeded  bool
-		cases   []c02Case
+		// seedAt / subAt: size every log holds when seeded, and the size of the
+		// submitted seeds: (2,4) growth; (4,4) and (0,0) same-size
+		// re-submission (the path that needs no consistency proof).
+		seedAt, subAt int
+		cases         []c02Case
 	}
 	var jobs []job
 	for _, store := range stores {
 		for _, cn := range confNames {
 			logs := configs[cn]
-			for _, seeded := range []bool{false, true} {
+			for _, mode := range [][2]int{{-1, 4}, {2, 4}, {4, 4}, {0, 0}} {
+				seeded, seedAt, subAt := mode[0] >= 0, mode[0], mode[1]
+				refresh := seeded && seedAt == subAt
 				old, proof := uint64(0), [][]byte{}
 				if seeded {
-					old, proof = 2, u.Main.Proof(2, 4)
+					old, proof = uint64(seedAt), u.Main.Proof(seedAt, subAt)
 				}
 				var cases []c02Case
 				add := func(label string, id string, cp []byte) {
 					cases = append(cases, c02Case{Label: label, ID: id, Old: old, CP: cp, Proof: proof})
 				}
 				shapes := []string{"plain", "ext", "otherlog", "stale-own-valid", "sizepad", "looseb64"}
+				if refresh {
+					shapes = []string{"plain", "ext"}
+				}
 				// The seeds are checkpoints of the first configured log (log A's
 				// origin in every configuration), signed with ITS configured key.
 				la := logs[0]
 				for _, shape := range shapes {
-					seed, _ := gen.Get(la, u.Main, 4, shape)
+					seed, _ := gen.Get(la, u.Main, subAt, shape)
 					add("valid "+shape, la.ID(), seed)
 					// byte-level 1-edit neighbourhood.
 					for i := 0; i <= len(seed); i++ {
@@ -268,7 +283,7 @@ func c02(tier string) int {
 						}
 						add(fmt.Sprintf("%s: byte %d deleted", shape, i), la.ID(), append(append([]byte{}, seed[:i]...), seed[i+1:]...))
 					}
-					for name, m := range c02LineEdits(u, la, u.K2, u.Main, 4, seed) {
+					for name, m := range c02LineEdits(u, la, u.K2, u.Main, subAt, seed) {
 						add(shape+": line edit: "+name, la.ID(), m)
 					}
 				}
@@ -309,6 +324,9 @@ func c02(tier string) int {
 					}
 				}
 				for _, src := range all {
+					if refresh {
+						break // the cross-log product is explored in the first two states
+					}
 					for _, n := range []int{0, 2, 4, 6} {
 						for _, shape := range []string{"plain", "otherlog"} {
 							cp, _ := gen.Get(src, u.Main, n, shape)
@@ -321,7 +339,7 @@ func c02(tier string) int {
 						}
 					}
 				}
-				jobs = append(jobs, job{cn, store, seeded, cases})
+				jobs = append(jobs, job{cn, store, seeded, seedAt, subAt, cases})
 			}
 		}
 	}
@@ -345,7 +363,7 @@ func c02(tier string) int {
 					}
 					if part.j.seeded {
 						for _, l := range logs {
-							cp, meta := gen.Get(l, u.Main, 2, "plain")
+							cp, meta := gen.Get(l, u.Main, part.j.seedAt, "plain")
 							if out := e.Do(wh.Req{LogID: l.ID(), CP: cp, Meta: meta}); out.Class != wh.OK {
 								ev.Internal("C02 seeding failed: %v", out.Err)
 							}
@@ -360,12 +378,12 @@ func c02(tier string) int {
 				}
 				for _, c := range part.j.cases[part.lo:part.hi] {
 					b := e.Snap()
-					judge(e, part.j.cfgName, c, part.j.seeded)
+					judge(e, part.j.cfgName, c, part.j.seeded, part.j.seedAt)
 					if !e.Snap().Equal(b) {
 						e.Close()
 						e = mk()
 					}
-					run.Distinct(fmt.Sprintf("%s|%v|%s", part.j.cfgName, part.j.seeded, c.Label))
+					run.Distinct(fmt.Sprintf("%s|%v@%d|%s", part.j.cfgName, part.j.seeded, part.j.seedAt, c.Label))
 				}
 				e.Close()
 			}
@@ -396,7 +414,7 @@ func c02(tier string) int {
 	}
 	run.Set("evaluations", evals)
 	run.Set("exhaustive", true)
-	run.Set("rule", "for 5 configurations built through the repository's own AsLogMap in one process (1 log; 2 logs distinct keys; 3 logs of which two share one key under different origins; 2 logs whose keys have the same name but different key material; log A under a new key) x {empty witness, every log holding a checkpoint} x 6 seed checkpoints (plain, extension lines, extra signature by another configured log, already cosigned, size with a leading zero, root with non-zero base64 padding bits): the complete byte-level 1-edit neighbourhood (every prefix, every single-bit flip, 8 boundary substitutions and deletion at every byte), 25 line-level / signature-block edits, and every checkpoint of every log (4 sizes x 2 shapes, incl. a log configured only elsewhere) submitted under every other configured ID and under unknown IDs (incl. spellings near a configured ID: other case, surrounding space, one character less or more), and every configured origin signed only by each key that is not its own (impostors) under its own ID. Oracle one-directional: accepted or state changed => stored text is in the set of texts the harness signed with the key configured for that ID and starts with that ID's origin; and for inputs the harness decides (crypto/ed25519 directly) carry no valid signature of that key / unsigned text / wrong origin: refused, state unchanged. distinct_nontrivial = distinct (configuration, state, mutated input)")
+	run.Set("rule", "for 5 configurations built through the repository's own AsLogMap in one process (1 log; 2 logs distinct keys; 3 logs of which two share one key under different origins; 2 logs whose keys have the same name but different key material; log A under a new key) x {empty witness, every log holding a smaller checkpoint (growth), every log holding a checkpoint of the submitted size 4 and of size 0 (same-size re-submission: no consistency proof involved; seeds plain and with extension lines, without the cross-log product)} x 6 seed checkpoints (plain, extension lines, extra signature by another configured log, already cosigned, size with a leading zero, root with non-zero base64 padding bits): the complete byte-level 1-edit neighbourhood (every prefix, every single-bit flip, 8 boundary substitutions and deletion at every byte), 25 line-level / signature-block edits, and every checkpoint of every log (4 sizes x 2 shapes, incl. a log configured only elsewhere) submitted under every other configured ID and under unknown IDs (incl. spellings near a configured ID: other case, surrounding space, one character less or more), and every configured origin signed only by each key that is not its own (impostors) under its own ID. Oracle one-directional: accepted or state changed => stored text is in the set of texts the harness signed with the key configured for that ID and starts with that ID's origin; and for inputs the harness decides (crypto/ed25519 directly) carry no valid signature of that key / unsigned text / wrong origin: refused, state unchanged. distinct_nontrivial = distinct (configuration, state, mutated input)")
 	run.Assumption("Ed25519 unforgeability: the set of texts the harness signed is the ground truth for authenticity")
 	return run.Finish()
 }
